@@ -319,8 +319,14 @@ class Envelope:
         outcomes = {}
         reshape_shape = []
         if self.state is None:
-            for s in [self.polarization, self.fock]:
-                out = s.measure()
+            # Unless states are measured separately the whole envelope is measured
+            to_measure: List[Any] = [self.polarization, self.fock]
+            if separate_measurement and len(states) > 0:
+                to_measure = list(states)
+            for s in to_measure:
+                if s.measured:
+                    continue
+                out = s.measure(separate_measurement=True, destructive=destructive)
                 for k, v in out.items():
                     outcomes[k] = v
         else:
